@@ -105,7 +105,7 @@ def instance_values():
         st.lists(small, max_size=4).map(lambda xs: vo.NewArgs(*xs)),
         st.tuples(
             st.lists(small, max_size=2),
-            st.dictionaries(st.sampled_from(["p", "q"]), small, max_size=2),
+            st.dictionaries(st.sampled_from(["p", "q", "b-c"]), small, max_size=2),
         ).map(lambda t: vo.NewArgsEx(*t[0], **t[1])),
         leaf.map(vo.WithSetstate),
         st.lists(small, max_size=3).map(vo.ListLike),
